@@ -132,6 +132,8 @@ Definition merged_tree (a : agg) (n : str) : option tree :=
 Definition req_tree (c : str * (types * kind)) : option tree := unfold 40 (fst (snd c)) (snd (snd c)).
 
 Definition dflt : str * (types * kind) := (nil, (w_nested_t0, KValue (VPrim PU8))).
+(** split conjunctions only ([split] on an equation would try to convert both sides with the lazy machine) *)
+Ltac conj_vc := repeat (match goal with |- _ /\ _ => split; [vm_compute; reflexivity|] end); vm_compute; reflexivity.
 
 (** * 1. The merged type is not an upper bound in general: nested instances *)
 Theorem upper_bound_witness_nested :
@@ -141,7 +143,7 @@ Theorem upper_bound_witness_nested :
 Proof.
   eexists _, _, (nth 1 w_nested dflt), _, _.
   split; [vm_compute; reflexivity|]. split; [cbn [nth w_nested In]; auto|].
-  repeat split; vm_compute; reflexivity.
+  conj_vc.
 Qed.
 
 (** ... and component requirements with different imports (no contributor is satisfied) *)
@@ -150,7 +152,7 @@ Theorem upper_bound_witness_component :
                  forall c, In c w_comp -> exists tr, req_tree c = Some tr /\ sub_b tm tr = false.
 Proof.
   eexists _, _, _. split; [vm_compute; reflexivity|]. split; [vm_compute; reflexivity|].
-  unfold w_comp. intros c [<-|[<-|[<-|[]]]]; eexists; split; vm_compute; reflexivity.
+  unfold w_comp. intros c [<-|[<-|[<-|[]]]]; eexists; (split; [vm_compute; reflexivity|]); vm_compute; reflexivity.
 Qed.
 
 (** * 2. Success depends on the order of the contributors *)
@@ -160,7 +162,7 @@ Proof.
   exists w_order, [nth 1 w_order dflt; nth 2 w_order dflt; nth 0 w_order dflt].
   split.
   - unfold w_order. cbn [nth]. eapply perm_trans; [apply perm_swap|]. apply perm_skip. apply perm_swap.
-  - split; eexists _, _; vm_compute; reflexivity.
+  - split; eexists _, _; (vm_compute; reflexivity).
 Qed.
 
 (** * 3. Failure without a conflict: nested instances with disjoint exports *)
@@ -168,14 +170,14 @@ Theorem failure_witness_disjoint :
   exists p e ta tb tm, run w_disjoint = inr (p, AErr e) /\
                        req_tree (nth 0 w_disjoint dflt) = Some ta /\ req_tree (nth 1 w_disjoint dflt) = Some tb /\
                        tmerge ta tb = Some tm /\ sub_b tm ta = true /\ sub_b tm tb = true.
-Proof. eexists _, _, _, _, _. repeat split; vm_compute; reflexivity. Qed.
+Proof. eexists _, _, _, _, _. conj_vc. Qed.
 
 (** ... and a panic where the requirements are equal as trees *)
 Theorem panic_witness :
   run w_panic = inr (1%nat, APanic) /\
   exists ta tb, req_tree (nth 0 w_panic dflt) = Some ta /\ req_tree (nth 1 w_panic dflt) = Some tb /\
                 exists tm, tmerge ta tb = Some tm.
-Proof. split; [vm_compute; reflexivity|]. eexists _, _. split; [|split; [|eexists]]; vm_compute; reflexivity. Qed.
+Proof. split; [vm_compute; reflexivity|]. eexists _, _. split; [vm_compute; reflexivity|]. split; [vm_compute; reflexivity|]. eexists. vm_compute; reflexivity. Qed.
 
 (** * 4. Owned resources: two imports on one track, and a second round changes the state *)
 Theorem owner_witness :
@@ -187,7 +189,7 @@ Proof.
   eexists _, _, _, _. split; [vm_compute; reflexivity|].
   split; [vm_compute; left; reflexivity|]. split; [vm_compute; right; right; left; reflexivity|].
   split; [vm_compute; reflexivity|]. split; [vm_compute; reflexivity|].
-  eexists _, _. split; vm_compute; reflexivity.
+  eexists _, _. split; [vm_compute; reflexivity|]. vm_compute; reflexivity.
 Qed.
 
 (** * 5. One interface identifier under two import names: the name -> tree map depends on the order *)
@@ -195,10 +197,10 @@ Theorem shared_id_witness :
   exists l l' a s a' s' n t t', Permutation l l' /\ run l = inl (a, s) /\ run l' = inl (a', s') /\
                                 merged_tree a n = Some t /\ merged_tree a' n = Some t' /\ sub_b t' t = false.
 Proof.
-  exists w_shared, [nth 1 w_shared dflt; nth 0 w_shared dflt; nth 2 w_shared dflt].
+  exists w_shared, [nth 0 w_shared dflt; nth 2 w_shared dflt; nth 1 w_shared dflt].
   eexists _, _, _, _, [120;58;121;47;122;64;50;46;48;46;48], _, _.
-  split; [unfold w_shared; cbn [nth]; apply perm_swap|].
-  repeat split; vm_compute; reflexivity.
+  split; [unfold w_shared; cbn [nth]; apply perm_skip; apply perm_swap|].
+  conj_vc.
 Qed.
 
 (** * 6. Non-vacuity of the partial theorems: three versions of one track, owner-free *)
@@ -211,4 +213,4 @@ Example flat_run :
               map (Aggregator.canonical a) (map fst w_flat) = [n_023; n_023; n_023] /\
               map (spec_canonical (map fst w_flat)) (map fst w_flat) = [n_023; n_023; n_023] /\
               rev_run w_flat = inl (a, s).
-Proof. eexists _, _. repeat split; vm_compute; reflexivity. Qed.
+Proof. eexists _, _. conj_vc. Qed.
